@@ -43,6 +43,8 @@ type Result struct {
 	WallS       float64          `json:"wall_s"`
 	start       time.Time
 	mu          sync.Mutex
+	kept        map[string]int // violations kept per class (see Violate)
+	keptFull    bool
 	outSet      map[string]struct{}
 }
 
@@ -81,24 +83,52 @@ func (r *Result) Cap(f string, a ...any) {
 	r.mu.Unlock()
 }
 
-// Violate records a violation (at most 20 are kept in full; all are counted).
-func (r *Result) Violate(key, desc string, replay any) {
-	r.mu.Lock()
-	r.NViolations++
-	keep := true
-	n := 0
-	for _, v := range r.Violations {
-		if v.Key == key {
-			n++
+// Shape is the class of a description for de-duplication: the text with every run of digits removed. Two
+// violations are "the same again" only if key, scenario and shape agree; anything else is kept, so that a
+// committed known finding (matched on key, scenario and description by check.py) can never hide a violation
+// that merely shares its key.
+func Shape(desc string) string {
+	b := make([]byte, 0, len(desc))
+	for i := 0; i < len(desc); i++ {
+		if c := desc[i]; c < '0' || c > '9' {
+			b = append(b, c)
 		}
 	}
-	if n >= 2 || len(r.Violations) >= 40 {
-		keep = false
+	return string(b)
+}
+
+// MaxKept bounds the violations kept in full per worker (all are counted).
+const MaxKept = 300
+
+// Violate records a violation: at most 2 are kept in full per (key, scenario, shape of the description) and at
+// most MaxKept altogether; all are counted, and hitting MaxKept is recorded as a note.
+func (r *Result) Violate(key, desc string, replay any) {
+	r.mu.Lock()
+	defer r.mu.Unlock()
+	r.NViolations++
+	cls := key + "\x00" + Shape(desc)
+	if m, ok := replay.(map[string]any); ok {
+		for _, f := range []string{"scenario", "search", "part"} {
+			if v, ok := m[f]; ok {
+				cls += "\x00" + fmt.Sprint(v)
+			}
+		}
 	}
-	if keep {
-		r.Violations = append(r.Violations, Violation{Key: key, Desc: desc, Replay: replay})
+	if r.kept == nil {
+		r.kept = map[string]int{}
 	}
-	r.mu.Unlock()
+	if r.kept[cls] >= 2 {
+		return
+	}
+	if len(r.Violations) >= MaxKept {
+		if !r.keptFull {
+			r.keptFull = true
+			r.Notes = append(r.Notes, fmt.Sprintf("more than %d distinct violation classes: the rest is counted but not kept", MaxKept))
+		}
+		return
+	}
+	r.kept[cls]++
+	r.Violations = append(r.Violations, Violation{Key: key, Desc: desc, Replay: replay})
 }
 
 // Flush appends the record to $VERIF_OUT (or prints it when unset).
